@@ -1,5 +1,6 @@
 """Per-property checks.  Each function returns the process exit code (0 / 1) after printing the
 VIOLATION / KNOWN-FINDING lines and writing evidence (common.conclude)."""
+import json
 import random
 
 import cfg
@@ -66,9 +67,9 @@ def check_C01(tier):
         return build_failure(pid, tier, msg)
     proof = common.prove(["Y.Props.C01_sound"], ["Yv.Props.C01"])
     results = sweep.run(tier, rng)
+    # the theorem needs only the certificates on the implementation's artefacts (and the driver
+    # model = generated code, which the C08 check ties by execution); no generator mirror is involved
     ties = cert_ties(results, ["gramWF", "certA", "certT"])
-    ties += mirror_ties(results, ("STATE", "GOTO"), "LR(0) automaton")
-    ties += mirror_ties(results, ("ROW",), "dense table")
     violations = []
     runs = 0
     accepted = 0
@@ -103,3 +104,593 @@ def check_C01(tier):
            "partial": ["execution of the compiled generated parsers (mechanism X) is covered by the C08 check, which compares them with this driver model"]}
     return common.conclude(pid, tier, "proof", proof, ties, violations, cov,
                            ["inputs are token sequences before the first end marker; symbols outside 0..nT cannot be produced by translate()"])
+
+
+# ------------------------------------------------------------------------------------------- helpers
+
+TYN = {"shift": 0, "reduce": 1, "error": 2}
+
+
+def std_cov(results, evaluations, rule, samples, extra=None):
+    dist = sweep.distribution(results)
+    cov = {"evaluations": evaluations, "distinct_nontrivial": dist["distinct_rule_sets"], "rule": rule,
+           "samples": samples, "distribution": dist, "trusted_base": TRUSTED}
+    if extra:
+        cov.update(extra)
+    return cov
+
+
+GEN_RULE = ("corpus (textbook separators LR(0)/SLR/LALR/LR(1), nullable, cyclic, operator tables) + sampled exhaustive tiny grammars + "
+            "random structured grammars with precedence/literals/%prec + large random grammars + operator grammars; "
+            "distinct = distinct rule sets among the grammars yaccgo accepts")
+
+
+def viol(pid, r, what, extra):
+    payload = {"property": pid, "grammar": r.case["src"], "what": what}
+    payload.update(extra)
+    return {"key": common.finding_key({"src": r.case["src"], "what": what, "x": extra.get("key_extra", extra)}),
+            "what": what, "replay": payload}
+
+
+# ------------------------------------------------------------------------------------------- C02
+
+def check_C02(tier):
+    pid = "C02"
+    rng = random.Random(common.seed() * 1000003 + 2)
+    ok, msg = prebuild()
+    if not ok:
+        return build_failure(pid, tier, msg)
+    proof = common.prove(["Y.sim", "Y.LA_in_table", "Y.firstOf_sets", "Y.Props.C01_sound"],
+                         ["Yv.Abs.Complete", "Yv.Abs.CertSets", "Yv.Props.C01"])
+    results = sweep.run(tier, rng)
+    ties = cert_ties(results, ["gramWF", "certA", "certT"])
+    violations, samples = [], []
+    runs = lalr = sentences = 0
+    for r in results:
+        if r.refused is not None:
+            continue
+        is_lalr = r.V.get("isLALR1", ["?"])[0] == "yes"
+        if not is_lalr:
+            continue
+        lalr += 1
+        if r.V.get("certC", ["missing"])[0] != "ok":
+            ties.append({"what": "completeness certificate certC fails on an LALR(1) grammar", "case": r.id, "src": r.case["src"]})
+        if r.warns():
+            violations.append(viol(pid, r, "conflict warning for a grammar whose LALR(1) automaton has no conflict", {"warnings": r.warns()}))
+        for f in r.runs:
+            w = r.inputs[int(f[1])]
+            runs += 1
+            if r.g.recognizes(w):
+                sentences += 1
+                if len(samples) < 3 and len(w) >= 3:
+                    samples.append({"case": r.id, "sentence": w, "verdict": f[2]})
+                if f[2] != "accept":
+                    violations.append(viol(pid, r, "sentence of an LALR(1) grammar is not accepted",
+                                           {"input_symbol_ids": w, "verdict": f[2]}))
+            elif f[2] == "accept":
+                violations.append(viol(pid, r, "non-sentence accepted (language is not exactly the grammar's)",
+                                       {"input_symbol_ids": w}))
+    cov = std_cov(results, runs, GEN_RULE + "; inputs: all strings up to a bound + sampled sentences, membership decided by an Earley recogniser", samples,
+                  {"lalr1_grammars": lalr, "sentences_checked": sentences,
+                   "partial": ["C02_complete is proved in abstract form (Y.sim over a lookahead-annotated item system with five closure facts; Y.LA_in_table / Y.firstOf_sets supply them from Bool checks); the glue from certC to those facts is validated per grammar, not yet a single theorem"]})
+    return common.conclude(pid, tier, "proof", proof, ties, violations, cov, ["LALR(1) is decided by the verified lookahead oracle on the implementation's automaton"])
+
+
+# ------------------------------------------------------------------------------------------- C03
+
+def check_C03(tier):
+    pid = "C03"
+    rng = random.Random(common.seed() * 1000003 + 3)
+    ok, msg = prebuild()
+    if not ok:
+        return build_failure(pid, tier, msg)
+    proof = common.prove(["Y.LA_iff", "Y.LA_in_table", "Y.firstOf_sets"], ["Yv.Abs.Lalr", "Yv.Abs.CertSets"])
+    results = sweep.run(tier, rng, inputs=False, n_random=600 if tier == "quick" else 15000,
+                        n_tiny=600 if tier == "quick" else None)
+    ties = cert_ties(results, ["gramWF", "certA"])
+    violations, samples = [], []
+    sets = 0
+    for r in results:
+        if r.refused is not None:
+            continue
+        sets += len(r.las())
+        v = r.V.get("laOracle")
+        if v is None or v[0] != "ok":
+            violations.append(viol(pid, r, "lookahead set differs from the LALR(1) set",
+                                   {"state_rule_symbols": v[1:] if v else None,
+                                    "note": "implementation's (state, rule) lookaheads vs the propagation fixpoint (= union over canonical LR(1) states, theorem LA_iff) on the implementation's own automaton"}))
+        # cell level: a cell gets a warning iff folding its candidates meets a pair that precedence
+        # cannot resolve (independent of which default wins, see DESIGN §5 C03)
+        iw = sorted(set((q, s) for q, s, a, b in r.warns()))
+        ow = sorted(set(tuple(int(x) for x in l.split()[2:4]) for l in rec_lines(r, "O WARN")))
+        if iw != ow:
+            violations.append(viol(pid, r, "conflict warnings differ from the unresolved LALR(1) conflicts",
+                                   {"implementation": iw, "expected": ow}))
+        if len(samples) < 3 and len(r.las()) > 3:
+            samples.append({"case": r.id, "lookaheads": r.las()[:4], "warnings": iw[:3]})
+    cov = std_cov(results, sets, GEN_RULE + "; evaluations = (state, rule) lookahead sets compared", samples,
+                  {"partial": ["yaccgo's DeRemer-Pennello computation is validated per grammar against the verified fixpoint oracle, not verified for all grammars"]})
+    return common.conclude(pid, tier, "proof", proof, ties, violations, cov, [])
+
+
+def rec_lines(r, prefix):
+    return [l for l in getattr(r, "raw_model", []) if l.startswith(prefix)]
+
+
+# ------------------------------------------------------------------------------------------- C09
+
+def check_C09(tier):
+    pid = "C09"
+    rng = random.Random(common.seed() * 1000003 + 9)
+    ok, msg = prebuild()
+    if not ok:
+        return build_failure(pid, tier, msg)
+    proof = common.prove(C09_THEOREMS, C09_MODULES)
+    results = sweep.run(tier, rng, inputs=False, n_random=800 if tier == "quick" else 20000,
+                        n_tiny=800 if tier == "quick" else None, big=30 if tier == "quick" else 300)
+    ties = cert_ties(results, ["gramWF", "certA"])
+    ties += mirror_ties(results, ("STATE", "GOTO"), "LR(0) states and transitions (literal numbering)")
+    violations, samples = [], []
+    nstates = 0
+    for r in results:
+        if r.refused is not None:
+            continue
+        istates = [frozenset(tuple(int(x) for x in it.split(".")) for it in st) for st in r.states()]
+        nstates += len(istates)
+        igoto = {(q, x): p for (q, x, p) in r.gotos()}
+        ref_states, ref_trans = cfg.lr0_collection(r.g)
+        what = None
+        if len(set(istates)) != len(istates):
+            what = "duplicate states (two states with the same item set)"
+        elif set(istates) != set(ref_states):
+            what = "state set differs from the canonical LR(0) collection (missing or extra state)"
+        elif istates[0] != ref_states[0]:
+            what = "state 0 is not the closure of the augmented start item"
+        else:
+            ref_index = {s: i for i, s in enumerate(ref_states)}
+            for q, s in enumerate(istates):
+                rq = ref_index[s]
+                mine = {x: istates[p] for (q2, x), p in igoto.items() if q2 == q and p < len(istates)}
+                ref = {x: ref_states[p] for (q2, x), p in ref_trans.items() if q2 == rq}
+                if mine != ref or any(p >= len(istates) for (q2, x), p in igoto.items() if q2 == q):
+                    what = "transitions of a state differ from the canonical goto function"
+                    break
+            # listed item order: sorted by (rule, dot), no duplicates
+            for st in r.states():
+                its = [tuple(int(x) for x in it.split(".")) for it in st]
+                if its != sorted(set(its)):
+                    what = "item list of a state is not sorted/duplicate-free"
+            for q, l in enumerate(l for l in r.impl if l.startswith("STATE ")):
+                if int(l.split()[2]) != q:
+                    what = "state's Index field differs from its position"
+        if what:
+            violations.append(viol(pid, r, what, {"states": [sorted(s) for s in istates][:40]}))
+        if len(samples) < 3 and len(istates) > 4:
+            samples.append({"case": r.id, "states": len(istates), "transitions": len(igoto)})
+    cov = std_cov(results, nstates, GEN_RULE + "; evaluations = states compared with an independently computed canonical collection", samples)
+    return common.conclude(pid, tier, "proof", proof, ties, violations, cov, ["grammars below the 2000-state cap"])
+
+
+C09_THEOREMS = ["Y.Props.C01_sound"]
+C09_MODULES = ["Yv.Props.C01"]
+
+
+# ------------------------------------------------------------------------------------------- C04
+
+def spec_winner(a, b):
+    """The property's resolution rule for a two-way conflict; candidates are dicts
+    (kind 'S'/'R', idx, prec, assoc).  Returns 'S', 'R', the winning reduce dict, 'error' or None (unspecified)."""
+    if a["kind"] == "R" and b["kind"] == "S":
+        a, b = b, a
+    if a["kind"] == "S" and b["kind"] == "R":
+        if a["prec"] != -1 and b["prec"] != -1:
+            if b["prec"] > a["prec"]:
+                return b
+            if b["prec"] < a["prec"]:
+                return a
+            if a["assoc"] == 0:
+                return b          # %left reduces
+            if a["assoc"] == 1:
+                return a          # %right shifts
+            return "error"        # %nonassoc / %precedence
+        return a                  # default: shift
+    if a["kind"] == "R" and b["kind"] == "R":
+        if a["prec"] == -1 or b["prec"] == -1:
+            return a if a["idx"] < b["idx"] else b
+        return None               # both rules carry a precedence: unspecified (DESIGN §4)
+    return None
+
+
+def cell_candidates(r):
+    """per (state, terminal): candidate actions from the implementation's automaton and lookaheads"""
+    g = r.g
+    cands = {}
+    for (q, x, p) in r.gotos():
+        if g.is_t(x):
+            cands.setdefault((q, x), []).append({"kind": "S", "idx": p, "prec": g.syms[x]["prec"], "assoc": g.syms[x]["assoc"]})
+    for (q, ru, la) in r.las():
+        ps = g.rules[ru][2]
+        pr = g.syms[ps]["prec"] if ps >= 0 else -1
+        asc = g.syms[ps]["assoc"] if ps >= 0 else 2
+        for a in la:
+            cands.setdefault((q, a), []).append({"kind": "R", "idx": ru, "prec": pr, "assoc": asc})
+    return cands
+
+
+def expr_reference(g, toks, names):
+    """precedence-climbing reference for the operator grammars of gen.expr_grammar.
+    Returns a tree (nested tuples of rule shapes) or None for a syntax error."""
+    # operator info from the symbol table the implementation built
+    sym = {v["name"].strip('"'): k for k, v in g.syms.items()}
+    T0 = sym["T0"]
+    lp, rp = sym.get("$operator("), sym.get("$operator)")
+    binops = {}
+    unary = None
+    paren = False
+    for i, (lhs, rhs, ps) in enumerate(g.rules):
+        if i == 0:
+            continue
+        if len(rhs) == 3 and rhs[0] == rhs[2] == lhs:
+            binops[rhs[1]] = i
+        elif len(rhs) == 2 and rhs[1] == lhs:
+            unary = (rhs[0], i, g.syms[ps]["prec"] if ps >= 0 else -1)
+        elif len(rhs) == 3 and rhs[0] == lp:
+            paren = i
+        elif rhs == [T0]:
+            leaf = i
+    pos = [0]
+
+    def peek():
+        return toks[pos[0]] if pos[0] < len(toks) else None
+
+    def primary():
+        t = peek()
+        if t == T0:
+            pos[0] += 1
+            return ("leaf",)
+        if paren and t == lp:
+            pos[0] += 1
+            e = expr(0)
+            if e is None or peek() != rp:
+                return None
+            pos[0] += 1
+            return ("paren", e)
+        if unary and t == unary[0]:
+            pos[0] += 1
+            e = expr(unary[2] + 1)
+            if e is None:
+                return None
+            return ("un", e)
+        return None
+
+    def expr(minp):
+        lhs = primary()
+        if lhs is None:
+            return None
+        last_nonassoc = None
+        while True:
+            t = peek()
+            if t not in binops:
+                return lhs
+            p, asc = g.syms[t]["prec"], g.syms[t]["assoc"]
+            if p < minp:
+                return lhs
+            if last_nonassoc is not None and p == last_nonassoc:
+                return None
+            pos[0] += 1
+            rhs = expr(p + 1 if asc != 1 else p)
+            if rhs is None:
+                return None
+            lhs = ("bin", t, lhs, rhs)
+            last_nonassoc = p if asc == 2 else None
+
+    e = expr(0)
+    if e is None or pos[0] != len(toks):
+        return None
+    return e
+
+
+def tree_from_reductions(g, reds, w):
+    """parse tree from the reductions in the order performed (bottom-up), tokens w"""
+    stack = []
+    toks = list(w)
+    ti = 0
+    # replay: before each reduction shift tokens until the handle is on the stack
+    for r in reds:
+        lhs, rhs, _ = g.rules[r]
+        n = len(rhs)
+        while [s for s, _ in stack[len(stack) - n:]] != rhs or len(stack) < n:
+            if ti >= len(toks):
+                return None
+            stack.append((toks[ti], ("tok", toks[ti])))
+            ti += 1
+        kids = [t for _, t in stack[len(stack) - n:]] if n else []
+        del stack[len(stack) - n:]
+        stack.append((lhs, ("node", r, kids)))
+    if ti != len(toks) or len(stack) != 1:
+        return None
+    return stack[0][1]
+
+
+def shape(g, t):
+    """normalise a parse tree of an operator grammar to the reference's shape"""
+    if t[0] == "tok":
+        return None
+    _, r, kids = t
+    rhs = g.rules[r][1]
+    lhs = g.rules[r][0]
+    if len(rhs) == 1:
+        return ("leaf",)
+    if len(rhs) == 3 and rhs[0] == rhs[2] == lhs:
+        return ("bin", rhs[1], shape(g, kids[0]), shape(g, kids[2]))
+    if len(rhs) == 2:
+        return ("un", shape(g, kids[1]))
+    return ("paren", shape(g, kids[1]))
+
+
+def random_expr_tokens(g, rng, depth=0):
+    sym = {v["name"].strip('"'): k for k, v in g.syms.items()}
+    T0 = sym["T0"]
+    ops = [rhs[1] for (lhs, rhs, _) in g.rules[1:] if len(rhs) == 3 and rhs[0] == rhs[2] == lhs]
+    un = [rhs[0] for (lhs, rhs, _) in g.rules[1:] if len(rhs) == 2]
+    par = [rhs for (lhs, rhs, _) in g.rules[1:] if len(rhs) == 3 and rhs[0] != lhs]
+    out = []
+
+    def atom(d):
+        c = rng.random()
+        if un and c < 0.2 and d < 4:
+            out.append(un[0])
+            atom(d + 1)
+        elif par and c < 0.35 and d < 3:
+            out.append(par[0][0])
+            ex(d + 1)
+            out.append(par[0][2])
+        else:
+            out.append(T0)
+
+    def ex(d):
+        atom(d)
+        for _ in range(rng.choice([0, 1, 1, 2, 3, 4] if d == 0 else [0, 1, 2])):
+            if not ops:
+                break
+            out.append(rng.choice(ops))
+            atom(d)
+
+    ex(depth)
+    return out
+
+
+def check_C04(tier):
+    pid = "C04"
+    rng = random.Random(common.seed() * 1000003 + 4)
+    ok, msg = prebuild()
+    if not ok:
+        return build_failure(pid, tier, msg)
+    proof = common.prove(["C04.sr_higher_rule", "C04.sr_higher_token", "C04.sr_equal_left", "C04.sr_equal_right",
+                          "C04.sr_equal_nonassoc", "C04.no_prec_is_error", "C04.default_sr_shifts", "C04.rr_first"],
+                         ["Yv.Props.C04"])
+    ties, violations, samples = [], [], []
+    # (1) the decision functions themselves, all pairs over a small domain, against the property's rule
+    p = common.sh([common.BIN + "/yharness", "resolve"])
+    pairs = 0
+    for line in p.stdout.decode().split("\n"):
+        if not line.startswith("RES "):
+            continue
+        parts = [x.strip() for x in line[4:].split("|")]
+        A, B = [int(x) for x in parts[0].split()], [int(x) for x in parts[1].split()]
+        res, dflt = parts[2], [int(x) for x in parts[3].split()]
+        pairs += 1
+
+        def mk(v):
+            return {"kind": "S" if v[0] == 0 else "R", "idx": abs(v[1]), "prec": v[3], "assoc": v[2]}
+        a, b = mk(A), mk(B)
+        same_level_diff_assoc = a["prec"] == b["prec"] != -1 and a["assoc"] != b["assoc"]
+        if same_level_diff_assoc:
+            continue   # unreachable: one declaration line gives one associativity per level
+        want = spec_winner(a, b)
+        if want is None:
+            continue
+        if res == "panic":
+            got = "panic"
+        elif res == "none":
+            got = mk(dflt)
+        else:
+            rv = [int(x) for x in res.split()]
+            got = "error" if rv[0] == 2 else mk(rv)
+        def act(x):
+            return (x["kind"], x["idx"]) if isinstance(x, dict) else x
+        if act(got) != act(want):
+            violations.append({"key": common.finding_key({"pair": [A, B]}),
+                               "what": "ResolveConflict/UseDefaultResolveConflict pick the wrong action",
+                               "replay": {"property": pid, "act01": A, "act02": B, "fields": "ActionType ActionIndex PrecType Prec",
+                                          "got": got, "expected": want}})
+    # (2) every two-way conflict cell of every generated grammar
+    results = sweep.run(tier, rng, inputs=False, n_random=500 if tier == "quick" else 8000)
+    ties += cert_ties(results, ["gramWF", "certA", "laOracle"])
+    ties += mirror_ties(results, ("ROW",), "dense table")
+    cells = 0
+    expr_results = []
+    for r in results:
+        if r.refused is not None:
+            continue
+        if r.case["kind"] == "expr":
+            expr_results.append(r)
+        rows = r.rows()
+        err = len(rows) + 100
+        for (q, a), cs in cell_candidates(r).items():
+            if len(cs) != 2:
+                continue
+            want = spec_winner(cs[0], cs[1])
+            if want is None:
+                continue
+            cells += 1
+            exp = err if want == "error" else (want["idx"] if want["kind"] == "S" else (-want["idx"] if want["idx"] != 0 else err + 100))
+            got = rows[q][a]
+            if len(samples) < 3:
+                samples.append({"case": r.id, "state": q, "symbol": a, "candidates": cs, "cell": got})
+            if got != exp:
+                violations.append(viol(pid, r, "two-way conflict cell holds the wrong action",
+                                       {"state": q, "symbol": a, "candidates": cs, "cell": got, "expected": exp}))
+    # (3) operator grammars: grouping of whole expressions (driver model on the implementation's table)
+    def expr_inputs(cid, impl_lines):
+        if not cid.startswith("expr:") or any(l.startswith("REFUSE") for l in impl_lines):
+            return []
+        g = cfg.G(impl_lines)
+        return [random_expr_tokens(g, rng) for _ in range(25 if tier == "quick" else 100)]
+    ecases = [{"id": r.id, "src": r.case["src"]} for r in expr_results]
+    exprs = 0
+    if ecases:
+        rec = common.run_core(ecases, inputs_fn=expr_inputs)
+        for c in ecases:
+            r = sweep.CaseResult({"id": c["id"], "src": c["src"], "kind": "expr"}, rec[c["id"]])
+            for f in r.runs:
+                w = r.inputs[int(f[1])]
+                ref = expr_reference(r.g, w, None)
+                exprs += 1
+                if f[2] == "accept":
+                    t = tree_from_reductions(r.g, [int(x) for x in f[4:]], w)
+                    got = shape(r.g, t) if t else "unparseable-log"
+                else:
+                    got = None
+                if got != ref:
+                    violations.append(viol(pid, r, "expression grouped differently from the declared precedence/associativity",
+                                           {"input_symbol_ids": w, "verdict": f[2], "got": repr(got), "expected": repr(ref)}))
+    cov = std_cov(results, pairs + cells + exprs,
+                  GEN_RULE + "; evaluations = action pairs through the real ResolveConflict + two-way conflict cells recomputed from the property's rule + whole expressions grouped against a precedence-climbing reference",
+                  samples, {"action_pairs": pairs, "two_way_cells": cells, "expressions": exprs,
+                            "partial": ["end-to-end grouping (all operator tables x all expressions) is covered by execution against a precedence-climbing reference, the cell-level rule by theorems on the translated functions",
+                                        "reduce/reduce cells where both rules carry a precedence are unspecified by the property and excluded"]})
+    return common.conclude(pid, tier, "proof", proof, ties, violations, cov, [])
+
+
+# ------------------------------------------------------------------------------------------- C05
+
+def rand_matrix(rng):
+    rows = rng.randint(1, 12)
+    cols = rng.randint(1, 12)
+    dens = rng.choice([0.0, 0.1, 0.3, 0.5, 0.8, 1.0])
+    vals = rng.choice([[1, 2, 3], [-3, -2, -1, 1, 2, 3, 105, 205], [7]])
+    tab = [[rng.choice(vals) if rng.random() < dens else 0 for _ in range(cols)] for _ in range(rows)]
+    if rng.random() < 0.3 and rows > 1:
+        tab[rng.randrange(rows)] = list(tab[rng.randrange(rows)])
+    if rng.random() < 0.3:
+        for r in tab:
+            r[0] = 0
+    return tab
+
+
+def check_C05(tier):
+    pid = "C05"
+    rng = random.Random(common.seed() * 1000003 + 5)
+    ok, msg = prebuild()
+    if not ok:
+        return build_failure(pid, tier, msg)
+    proof = common.prove(C05_THEOREMS, C05_MODULES)
+    ties, violations, samples = [], [], []
+    # (1) matrices through the real PackTable / UnPackTable
+    mats = [[[0, 5, 0, 7]], [[0, 0, 1], [0, 1, 0], [0, 0, 1]], [[0]], [[0, 0], [0, 0]], [[0, 0, 0, 3], [0, 2, 0, 0]]]
+    mats += [rand_matrix(rng) for _ in range(3000 if tier == "quick" else 60000)]
+    inp = "".join(json.dumps({"id": "m%d" % i, "aux": m}) + "\n" for i, m in enumerate(mats)).encode()
+    p = common.sh([common.BIN + "/yharness", "pack"], inp=inp)
+    impl = parse_blocks(p.stdout.decode(), "PCASE", "PEND")
+    mo = common.sh([common.YMODEL], inp=p.stdout)
+    model = parse_blocks(mo.stdout.decode(), "PCASE", "PEND")
+    for i, m in enumerate(mats):
+        b = impl.get("m%d" % i, [])
+        unp = [[int(x) for x in l.split()[1:]] for l in b if l.startswith("PUNP")]
+        pan = [l for l in b if l.startswith("PPANIC")]
+        if pan or unp != m:
+            violations.append({"key": common.finding_key({"matrix": m}), "what": "UnPackTable(PackTable(t)) != t",
+                               "replay": {"property": pid, "matrix": m, "unpacked": unp, "panic": pan}})
+        ia = [l for l in b if l.split()[0] in ("PACT", "POFF", "PCHK")]
+        ma = [l[2:] for l in model.get("m%d" % i, []) if l.startswith("M ")]
+        if ia != ma and not pan:
+            ties.append({"what": "mirror stage differs: PackTable arrays", "matrix": m, "impl": ia, "model": ma})
+    samples.append({"matrix": mats[0], "impl": impl.get("m0")})
+    # (2) every cell of every generated grammar through the implementation's packed arrays
+    results = sweep.run(tier, rng, inputs=False, n_random=500 if tier == "quick" else 10000, big=30 if tier == "quick" else 300)
+    ties += mirror_ties(results, ("PACKED", "ACT", "OFF", "CHK", "ADEF", "GDEF"), "split + packed arrays")
+    cells = 0
+    for r in results:
+        if r.refused is not None or not r.packed():
+            continue
+        v = r.V.get("packLookup")
+        rows = r.rows()
+        cells += len(rows) * len(rows[0])
+        if v is None or v[0] != "ok":
+            violations.append(viol(pid, r, "packed lookup differs from the dense table",
+                                   {"state_symbol": v[1:] if v else None}))
+    cov = std_cov(results, len(mats) + cells,
+                  "random integer matrices (1x1..12x12, densities 0-100%, negatives, equal rows, empty first column) + the F5 matrix through PackTable/UnPackTable; " + GEN_RULE +
+                  "; every (state, symbol) cell of every packed grammar looked up through the implementation's five arrays with the generated Action logic",
+                  samples, {"matrices": len(mats), "cells": cells,
+                            "partial": ["behavioural equality of the packed and -u generated parsers on all inputs is covered by the C08 check (execution)"]})
+    return common.conclude(pid, tier, "proof", proof, ties, violations, cov, [])
+
+
+C05_THEOREMS = ["PackP.lookup_correct", "PackP.inv_place", "PackP.firstFit_fits"]
+C05_MODULES = ["Yv.Proofs.PackCore"]
+
+
+def parse_blocks(txt, begin, end):
+    out = {}
+    cur = None
+    for l in txt.split("\n"):
+        if l.startswith(begin + " "):
+            cur = l.split()[1]
+            out[cur] = []
+        elif l.startswith(end):
+            cur = None
+        elif cur is not None and l:
+            out[cur].append(l)
+    return out
+
+
+# ------------------------------------------------------------------------------------------- C06
+
+def check_C06(tier):
+    pid = "C06"
+    rng = random.Random(common.seed() * 1000003 + 6)
+    ok, msg = prebuild()
+    if not ok:
+        return build_failure(pid, tier, msg)
+    proof = common.prove(C06_THEOREMS, C06_MODULES)
+    results = sweep.run(tier, rng)
+    ties = cert_ties(results, ["gramWF", "certA", "certT"])
+    violations, samples = [], []
+    runs = rejected = 0
+    for r in results:
+        if r.refused is not None:
+            continue
+        conflict_free = r.V.get("isLALR1", ["?"])[0] == "yes"
+        for f in r.runs:
+            w = r.inputs[int(f[1])]
+            runs += 1
+            if f[2] == "accept":
+                continue
+            rejected += 1
+            if f[2] == "crash":
+                violations.append(viol(pid, r, "rejected input makes the parser crash (index out of range) instead of reporting a grammar error",
+                                       {"input_symbol_ids": w}))
+                continue
+            if f[2] == "fuel":
+                if conflict_free:
+                    violations.append(viol(pid, r, "parser does not reach a verdict on a conflict-free grammar", {"input_symbol_ids": w}))
+                continue
+            if conflict_free:
+                p = r.g.viable_len(w)
+                req = int(f[3])
+                if len(samples) < 3 and len(w) >= 3:
+                    samples.append({"case": r.id, "input": w, "first_bad_token_index": p, "tokens_requested": req})
+                if req != p + 1:
+                    violations.append(viol(pid, r, "syntax error not reported at the first token that cannot continue a sentence",
+                                           {"input_symbol_ids": w, "tokens_requested": req, "first_bad_token_index": p}))
+    cov = std_cov(results, runs, GEN_RULE + "; inputs: all strings up to a bound incl. an unknown token, mutated sentences; viable prefixes decided by an Earley recogniser",
+                  samples, {"rejected_runs": rejected,
+                            "partial": ["termination for every conflict-free grammar (needs unambiguity of LR grammars) is covered by step-bounded execution, not by a theorem",
+                                        "the error channel of each backend (Go panic text, TypeScript log + null) is checked by execution in the C08 check's X runs"]})
+    return common.conclude(pid, tier, "proof", proof, ties, violations, cov, [])
+
+
+C06_THEOREMS = ["Y.Props.C06_safe", "Y.St0_valid", "Y.valid_viable"]
+C06_MODULES = ["Yv.Props.C06", "Yv.Abs.Prefix"]
